@@ -406,3 +406,201 @@ Proof.
     + rewrite ref_t_null, sm_t_null in IHb. cbn [app] in IHb. apply Permutation_sym, Permutation_nil in IHb. subst w1. cbn [app].
       fold (Em dt top ns (path ++ [k])). rewrite <- app_assoc. apply Permutation_app_head. exact IHr.
 Qed.
+
+(** * Walking the default side or the locale side gives the same surplus warnings *)
+Lemma forest_get_nodup : forall f k v,
+  forest_nodup f = true -> forest_get f k = Some v -> tree_nodup v = true.
+Proof.
+  induction f as [|k0 t r IH]; intros k v Hnd Hg; [discriminate|].
+  cbn [forest_nodup] in Hnd. apply andb_true_iff in Hnd. destruct Hnd as [Hnd Hr].
+  apply andb_true_iff in Hnd. destruct Hnd as [_ Ht]. cbn [forest_get] in Hg.
+  destruct (k =? k0); [injection Hg as <-; exact Ht | eapply IH; eauto].
+Qed.
+
+Lemma ref_split : forall E f D path,
+  Permutation (ref_f E f D path) (top_s E f D path ++ cm_s E f D path).
+Proof.
+  intros E. induction f as [|k v r IH]; intros D path; [apply Permutation_refl|].
+  rewrite ref_f_cons. cbn [top_s cm_s]. specialize (IH D path).
+  destruct (forest_get D k) as [d|].
+  - cbn [app]. eapply Permutation_trans; [apply Permutation_app_head; exact IH|].
+    apply Permutation_app_swap_app.
+  - rewrite <- app_assoc. cbn [app]. apply Permutation_app_head. exact IH.
+Qed.
+
+Lemma cm_s_nil : forall E f path, cm_s E f FNil path = [].
+Proof. intros E. induction f as [|k v r IH]; intros path; [reflexivity|]. cbn [cm_s forest_get app]. apply IH. Qed.
+
+Lemma cm_s_peel : forall E f k t r path,
+  forest_nodup f = true -> forest_get r k = None ->
+  Permutation (cm_s E f (FCons k t r) path)
+              (match forest_get f k with Some v => ref_t E v t (path ++ [k]) | None => [] end ++ cm_s E f r path).
+Proof.
+  intros E. induction f as [|k' v' r' IH]; intros k t r path Hnd Hrk; [apply Permutation_refl|].
+  cbn [forest_nodup] in Hnd. apply andb_true_iff in Hnd. destruct Hnd as [Hnd Hr'].
+  apply andb_true_iff in Hnd. destruct Hnd as [Hk' _].
+  specialize (IH k t r path Hr' Hrk). cbn [cm_s forest_get].
+  destruct (k' =? k) eqn:He.
+  - apply N.eqb_eq in He. subst k'. rewrite N.eqb_refl, Hrk.
+    destruct (forest_get r' k); [discriminate|]. cbn [app] in *.
+    apply Permutation_app_head. exact IH.
+  - rewrite N.eqb_sym, He.
+    eapply Permutation_trans; [apply Permutation_app_head; exact IH|]. apply Permutation_app_swap_app.
+Qed.
+
+Lemma swap_mut : forall E,
+  (forall d v path, tree_nodup d = true -> tree_nodup v = true ->
+     Permutation (sm_t E d v path) (ref_t E v d path))
+  /\ (forall D f path, forest_nodup D = true -> forest_nodup f = true ->
+     Permutation (sm_c E D f path) (cm_s E f D path)).
+Proof.
+  intros E. apply tree_forest_mutind.
+  - intros x v path _ _. destruct v as [y| |h]; apply Permutation_refl.
+  - intros v path _ _. destruct v as [y| |h]; apply Permutation_refl.
+  - intros g IH v path Hg Hv. destruct v as [y| |h]; try apply Permutation_refl.
+    rewrite sm_t_group, ref_t_group. cbn [tree_nodup] in Hg, Hv.
+    eapply Permutation_trans; [|apply Permutation_sym, ref_split].
+    eapply Permutation_trans; [apply Permutation_app_comm|].
+    apply Permutation_app_head. now apply IH.
+  - intros f path _ _. rewrite cm_s_nil. apply Permutation_refl.
+  - intros k t IHt r IHr f path HD Hf. rewrite sm_c_cons.
+    cbn [forest_nodup] in HD. apply andb_true_iff in HD. destruct HD as [HD Hr].
+    apply andb_true_iff in HD. destruct HD as [Hk Ht].
+    assert (Hrk : forest_get r k = None) by (destruct (forest_get r k); [discriminate | reflexivity]).
+    eapply Permutation_trans; [|apply Permutation_sym, cm_s_peel; assumption].
+    apply Permutation_app; [|now apply IHr].
+    destruct (forest_get f k) as [v|] eqn:Hg; [|apply Permutation_refl].
+    apply IHt; [assumption | eapply forest_get_nodup; eauto].
+Qed.
+
+(** * One locale merged into the builder keys *)
+Lemma merge_locale_warn : forall suppress top dt ns ks f path ks' ws,
+  wfk ks -> forest_nodup (skel ks) = true -> forest_nodup f = true ->
+  merge_locale suppress top dt ns ks f path = Ok (ks', ws) ->
+  Permutation ws (ref_f (Em dt top ns) (skel ks) f path ++ ref_f (Es suppress top ns) f (skel ks) path)
+  /\ skel ks' = skel ks /\ wfk ks'.
+Proof.
+  intros suppress top dt ns ks f path ks' ws Hwf HD Hf H. unfold merge_locale, finish_locale in H.
+  destruct (merge_keys suppress top dt ns ks f path) as [[ks1 w]| | |] eqn:Hm; try discriminate.
+  injection H as <- <-. destruct (proj2 (merge_skel_mut _ _ _ _) _ _ _ _ _ Hm) as [Hs Hw].
+  split; [|split; [assumption | now apply Hw]].
+  pose proof (proj2 (merge_warn_mut _ _ _ _) _ _ _ _ _ Hwf Hm) as Hp. rewrite surplus_top.
+  eapply Permutation_trans; [apply Permutation_app_tail; exact Hp|]. rewrite <- app_assoc.
+  apply Permutation_app_head.
+  eapply Permutation_trans; [|apply Permutation_sym, ref_split].
+  eapply Permutation_trans; [apply Permutation_app_comm|].
+  apply Permutation_app_head. now apply (proj2 (swap_mut _)).
+Qed.
+
+(** * The reference lists are the specification's expected warnings *)
+Lemma em_expected : forall c ns df dflt l f,
+  ref_f (Em (choose_default_to (c_ext c) (c_suppress c) dflt l) l ns) df f []
+  = expected_missing c ns df (l, f).
+Proof.
+  intros c ns df dflt l f. rewrite ref_flat. unfold flat_ref, expected_missing, phi, Em, choose_default_to.
+  cbn [fst snd]. destruct (map_get (c_ext c) l) as [d|].
+  - rewrite orb_true_r. apply mw_flat_map_nil. intros pb _. cbn [is_implicit].
+    now destruct (parent_is_group f (fst pb) && match forest_at f (fst pb) with None => true | Some _ => false end).
+  - rewrite orb_false_r. destruct (c_suppress c).
+    + apply mw_flat_map_nil. intros pb _. cbn [is_implicit].
+      now destruct (parent_is_group f (fst pb) && match forest_at f (fst pb) with None => true | Some _ => false end).
+    + reflexivity.
+Qed.
+
+Lemma es_expected : forall c ns df l f,
+  ref_f (Es (c_suppress c) l ns) f df [] = expected_surplus c ns df (l, f).
+Proof.
+  intros c ns df l f. rewrite ref_flat. unfold flat_ref, expected_surplus, phi, Es. cbn [fst snd].
+  destruct (c_suppress c).
+  - apply mw_flat_map_nil. intros pb _.
+    now destruct (parent_is_group df (fst pb) && match forest_at df (fst pb) with None => true | Some _ => false end).
+  - reflexivity.
+Qed.
+
+(** * All locales of a namespace *)
+Lemma merge_all_warn : forall c dflt ns df rest ks ks' ws,
+  skel ks = df -> wfk ks -> forest_nodup df = true ->
+  forallb (fun lf : loc * forest => forest_nodup (snd lf)) rest = true ->
+  merge_all (c_ext c) (c_suppress c) dflt ns ks rest = Ok (ks', ws) ->
+  Permutation ws (flat_map (fun lf => expected_missing c ns df lf ++ expected_surplus c ns df lf) rest).
+Proof.
+  intros c dflt ns df. induction rest as [|[l f] rest IH]; intros ks ks' ws Hs Hwf HD Hnd H; cbn [merge_all] in H.
+  - injection H as <- <-. apply Permutation_refl.
+  - cbn [forallb snd] in Hnd. apply andb_true_iff in Hnd. destruct Hnd as [Hf Hrest].
+    destruct (merge_locale (c_suppress c) l (choose_default_to (c_ext c) (c_suppress c) dflt l) ns ks f [])
+      as [[ks1 w1]| | |] eqn:Hm; try discriminate.
+    destruct (merge_all (c_ext c) (c_suppress c) dflt ns ks1 rest) as [[ks2 w2]| | |] eqn:Hr; try discriminate.
+    injection H as <- <-.
+    assert (HD' : forest_nodup (skel ks) = true) by now rewrite Hs.
+    destruct (merge_locale_warn _ _ _ _ _ _ _ _ _ Hwf HD' Hf Hm) as [Hp [Hs1 Hw1]].
+    rewrite Hs in Hp. rewrite em_expected, es_expected in Hp.
+    cbn [flat_map]. apply Permutation_app; [exact Hp|].
+    apply (IH ks1 ks2 w2); try assumption. now rewrite Hs1.
+Qed.
+
+Lemma inner_warn : forall c ns locs,
+  forallb (fun lf : loc * forest => forest_nodup (snd lf)) locs = true ->
+  match check_locales_inner (c_ext c) (c_suppress c) ns locs with
+  | Ok (_, ws) => Permutation ws (expected_warnings_ns c (ns, locs))
+  | _ => True
+  end.
+Proof.
+  intros c ns [|[dflt df] rest] Hnd; cbn [check_locales_inner]; [exact I|].
+  cbn [forallb snd] in Hnd. apply andb_true_iff in Hnd. destruct Hnd as [HD Hrest].
+  destruct (mk_keys dflt ns [] df) as [ks0| | |] eqn:Hk; try exact I.
+  destruct (proj2 (mk_skel_mut dflt ns) _ _ _ Hk) as [Hs Hwf].
+  destruct (merge_all (c_ext c) (c_suppress c) dflt ns ks0 rest) as [[ks ws]| | |] eqn:Hm; try exact I.
+  unfold expected_warnings_ns. cbn [fst snd].
+  eapply merge_all_warn; eauto.
+Qed.
+
+Lemma check_locales_warn : forall c nss,
+  forallb (fun nf : nsfiles => forallb (fun lf : loc * forest => forest_nodup (snd lf)) (snd nf)) nss = true ->
+  match check_locales (c_ext c) (c_suppress c) nss with
+  | Ok (_, ws) => Permutation ws (flat_map (expected_warnings_ns c) nss)
+  | _ => True
+  end.
+Proof.
+  intros c. induction nss as [|[ns locs] rest IH]; intros Hnd; cbn [check_locales].
+  - apply Permutation_refl.
+  - cbn [forallb snd] in Hnd. apply andb_true_iff in Hnd. destruct Hnd as [Hlocs Hrest].
+    pose proof (inner_warn c ns locs Hlocs) as Hi. specialize (IH Hrest).
+    destruct (check_locales_inner (c_ext c) (c_suppress c) ns locs) as [[ks w1]| | |]; try exact I.
+    destruct (check_locales (c_ext c) (c_suppress c) rest) as [[out w2]| | |]; try exact I.
+    cbn [flat_map]. now apply Permutation_app.
+Qed.
+
+(** Permutation form of the final theorem (only the BTreeMap invariant is needed) *)
+Theorem warnings_exact_perm : forall c,
+  forallb (fun nf : nsfiles => forallb (fun lf : loc * forest => forest_nodup (snd lf)) (snd nf)) (c_nss c) = true ->
+  match check_locales (c_ext c) (c_suppress c) (c_nss c) with
+  | Ok (_, ws) => Permutation ws (expected_warnings c)
+  | _ => True
+  end.
+Proof. intros c H. exact (check_locales_warn c (c_nss c) H). Qed.
+
+Theorem warnings_exact : forall c,
+  wf_strict c = true ->
+  match check_locales (c_ext c) (c_suppress c) (c_nss c) with
+  | Ok (_, ws) => perm_eqb warning_eqb ws (expected_warnings c) = true
+  | _ => True
+  end.
+Proof.
+  intros c H. unfold wf_strict in H. apply andb_true_iff in H. destruct H as [_ H].
+  pose proof (warnings_exact_perm c H) as Hp.
+  destruct (check_locales (c_ext c) (c_suppress c) (c_nss c)) as [[out ws]| | |]; try exact I.
+  apply perm_eqb_of_Permutation; [exact warning_eqb_refl | exact warning_eqb_eq | exact Hp].
+Qed.
+
+(** non-vacuity: a well-formed case whose merge succeeds with warnings of both kinds, nested *)
+Example warnings_exact_nonvacuous :
+  let df := FCons 1 (Leaf 0) (FCons 2 (Group (FCons 3 (Leaf 0) FNil)) FNil) in
+  let f := FCons 2 (Group (FCons 4 (Leaf 0) FNil)) (FCons 5 (Leaf 0) FNil) in
+  let c := mk_case false [] [(None, [(0, df); (1, f)])] IOther in
+  wf_strict c = true
+  /\ match check_locales (c_ext c) (c_suppress c) (c_nss c) with
+     | Ok (_, ws) => ws = [WMissing 1 None [1]; WMissing 1 None [2; 3]; WSurplus 1 None [2; 4]; WSurplus 1 None [5]]
+     | _ => False
+     end
+  /\ expected_warnings c = [WMissing 1 None [1]; WMissing 1 None [2; 3]; WSurplus 1 None [2; 4]; WSurplus 1 None [5]].
+Proof. vm_compute. repeat split. Qed.
